@@ -165,9 +165,8 @@ def _impl_frames(tb):
     root = os.environ.get('BCMC_REPO', '/repo')
     for fr in traceback.extract_tb(tb):
         fn = fr.filename
-        if fn.startswith(root + '/') or '/site-packages/' in fn or '/lib/python3' in fn:
-            if '/bcmc/' not in fn:
-                return True
+        if fn.startswith(root + '/bycycle/'):
+            return True
     return False
 
 
